@@ -820,6 +820,24 @@ func (e *Env) evalCall(n *ast.CallExpr) (Val, bool) {
 				return scalar(app(sBool, "str.prefixof", b.T, a.T), boolT), true
 			}
 			return scalar(app(sBool, "str.contains", a.T, b.T), boolT), true
+		case "obj":
+			// obj(r, *T): the object with reference r viewed as a *T (to quantify over all objects of a type)
+			if len(n.Args) != 2 {
+				return e.fail("obj needs (reference, *T)")
+			}
+			r, ok := e.eval(n.Args[0])
+			if !ok {
+				return r, false
+			}
+			t, err := x.P.resolveType(n.Args[1], e.pkg)
+			if err != nil {
+				return e.fail("obj: %v", err)
+			}
+			pt, isPtr := under(t).(*types.Pointer)
+			if !isPtr || r.K != KScalar || r.T.Sort != sInt {
+				return e.fail("obj needs an integer reference and a pointer type")
+			}
+			return Val{K: KPtr, Typ: t, P: &Ptr{Kind: PObj, Base: r.T, Elem: pt.Elem()}}, true
 		case "inside":
 			// inside(k): the path is currently inside closure $k of the function under verification
 			if len(n.Args) != 1 {
@@ -1241,6 +1259,34 @@ func (e *Env) evalModifies(m ast.Expr) ([]modLoc, bool) {
 			return objLocs(p.Base, t), true
 		}
 	case *ast.SelectorExpr:
+		if ce, ok := n.X.(*ast.CallExpr); ok {
+			if id, ok := ce.Fun.(*ast.Ident); ok && id.Name == "allof" && len(ce.Args) == 1 {
+				// allof(T).f: field f of every object of struct type T
+				t, err := x.P.resolveType(ce.Args[0], e.pkg)
+				if err != nil {
+					e.err = "modifies: " + err.Error()
+					return nil, false
+				}
+				stt, ok := structOf(t)
+				if !ok {
+					e.err = "modifies: allof needs a struct type"
+					return nil, false
+				}
+				for i := 0; i < stt.NumFields(); i++ {
+					if stt.Field(i).Name() == n.Sel.Name {
+						keys := map[string]string{}
+						keysOfField(t, i, keys)
+						var out []modLoc
+						for _, k := range sortedKeys(keys) {
+							out = append(out, modLoc{key: k, sort: keys[k]})
+						}
+						return out, true
+					}
+				}
+				e.err = "modifies: no field " + n.Sel.Name
+				return nil, false
+			}
+		}
 		v, ok := e.eval(n.X)
 		if !ok {
 			return nil, false
